@@ -697,8 +697,7 @@ fn gen_key(kn: &Knobs, depth: u32) -> K {
 fn gen_embedded(kn: &Knobs) -> Option<G> {
     let cfg = gen::GenCfg { max_depth: 2, max_width: 3, max_str: kn.max_str.min(40), classes: kn.classes, node_budget: 8 };
     Some(match draw(4) {
-        0 if !cfg!(miri) => {
-            // (Miri cannot execute the arena DOM)
+        0 => {
             let j = gen::gen_j(&cfg);
             let text = gen::render(&j, &gen::Style::draw_knobs());
             let v: sonic_rs::Value = sonic_rs::from_str(&text).ok()?;
